@@ -615,7 +615,7 @@ func runLLMNR(w *rt.World, res *hx.Result, realServer, realClient bool) *hx.Viol
 			if q.err != nil {
 				el := q.end - q.start
 				switch {
-				case strings.Contains(q.err.Error(), "timeout"):
+				case strings.Contains(q.err.Error(), "timeout") || q.err == context.DeadlineExceeded:
 					rt.Probe(PClientTimeout)
 					if el < int64(cl.Timeout) {
 						return &hx.Violation{Class: "client_mismatch", Key: "early_timeout",
